@@ -220,17 +220,21 @@ impl<C: CellType> Expr<C> {
             let mut res = other.into();
             res.parts.retain_mut(|ExprPart { coef, vars }| {
                 vars.extend(self.parts[0].vars.iter().copied());
+                vars.sort();
                 *coef = coef.wrapping_mul(self.parts[0].coef);
                 *coef != C::ZERO
             });
+            res.parts.sort_by(|a, b| a.vars.cmp(&b.vars));
             res
         } else if other.as_ref().parts.len() == 1 {
             let mut res = self.clone();
             res.parts.retain_mut(|ExprPart { coef, vars }| {
                 vars.extend(other.as_ref().parts[0].vars.iter().copied());
+                vars.sort();
                 *coef = coef.wrapping_mul(other.as_ref().parts[0].coef);
                 *coef != C::ZERO
             });
+            res.parts.sort_by(|a, b| a.vars.cmp(&b.vars));
             res
         } else {
             let mut parts = HashMap::with_capacity(self.parts.len() * other.as_ref().parts.len());
@@ -511,6 +515,7 @@ impl<C: CellType> Expr<C> {
                     vars,
                 });
             }
+            parts.sort_by(|a, b| a.vars.cmp(&b.vars));
             Some(Expr { parts })
         } else {
             None
